@@ -34,7 +34,65 @@ func chanCap(rel, recv, name, elem string) int {
 	return n
 }
 
+// c12structFields: the fields of a struct type as "names type", in order; c12packageVars: the package-level
+// variables of a file.
+func c12structFields(rel, typ string) string {
+	f := load(rel)
+	if f == nil {
+		return "<missing>"
+	}
+	var out []string
+	found := false
+	for _, d := range f.f.Decls {
+		gd, ok := d.(*ast.GenDecl)
+		if !ok || gd.Tok != token.TYPE {
+			continue
+		}
+		for _, sp := range gd.Specs {
+			ts := sp.(*ast.TypeSpec)
+			st, ok := ts.Type.(*ast.StructType)
+			if ts.Name.Name != typ || !ok {
+				continue
+			}
+			found = true
+			for _, fl := range st.Fields.List {
+				var names []string
+				for _, n := range fl.Names {
+					names = append(names, n.Name)
+				}
+				out = append(out, strings.TrimSpace(strings.Join(names, ",")+" "+exprText(f.fset, fl.Type)))
+			}
+		}
+	}
+	if !found {
+		return "<missing>"
+	}
+	return strings.Join(out, " ; ")
+}
+
+func c12packageVars(rel string) string {
+	f := load(rel)
+	if f == nil {
+		return "<missing>"
+	}
+	var out []string
+	for _, d := range f.f.Decls {
+		if gd, ok := d.(*ast.GenDecl); ok && gd.Tok == token.VAR {
+			for _, sp := range gd.Specs {
+				for _, n := range sp.(*ast.ValueSpec).Names {
+					out = append(out, n.Name)
+				}
+			}
+		}
+	}
+	return strings.Join(out, " ; ")
+}
+
 func factsC12() {
+	// service 0 keeps no state between two requests: its struct holds the authenticator and nothing else, and the
+	// file has no package-level variable but the error value (Auth.v: LMbox touches the mailbox and the sender's flag only)
+	emitStr("f_c12_service0_fields", c12structFields("bus/authenticate.go", "serviceAuthenticate"))
+	emitStr("f_c12_service0_package_vars", c12packageVars("bus/authenticate.go"))
 	emitNat("f_consumer_cap", chanCap("bus/server.go", "server", "handle", "net.Message"))
 	emitNat("f_c12_mailbox_cap", chanCap("bus/mailbox.go", "", "NewMailBox", "Mail"))
 	// serviceImpl.Receive: the mailbox is looked up under RLock, the blocking send happens after RUnlock
